@@ -33,7 +33,9 @@ def seeds():
         if m.get('superseded'):
             ftxt = 'missed; superseded by a repair (see meta)'
         elif fr:
-            ftxt = fr.split(' - ')[0].replace('first run: ', '')
+            low = fr.lower()
+            ftxt = ('caught for an incidental reason' if 'incidental' in low else '**undecided**' if 'undecided' in low.split(' - ')[0]
+                    else '**missed**' if 'missed' in low.split(' - ')[0] else fr.split(' - ')[0].replace('first run: ', ''))
         else:
             ftxt = {0: '**missed**', 1: 'caught', 2: '**undecided**', 3: '**undecided**'}.get(first.get('exit'), '?')
             if m.get('check_results_final') and first.get('exit') == 1:
@@ -42,10 +44,11 @@ def seeds():
         first_caught += ftxt == 'caught'
         missed += 'missed' in ftxt
         undecided += 'undecided' in ftxt
+        incidental = locals().get('incidental', 0) + ('incidental' in ftxt)
         files = m.get('files_touched') or ['']
         print('| %s | %s | %s | `%s` |' % (name, os.path.basename(files[0] if isinstance(files, list) else files), ftxt, ob))
     print()
-    print('%d seeded changes: %d reported on the first run, %d missed, %d undecided' % (n, first_caught, missed, undecided))
+    print('%d seeded changes: %d reported on the first run, %d missed, %d undecided, %d caught for an incidental reason' % (n, first_caught, missed, undecided, incidental))
 
 
 if __name__ == '__main__':
